@@ -32,6 +32,14 @@ def addPoly : List F → List F → List F
 
 def sumPolys (ps : List (List F)) : List F := ps.foldr addPoly []
 
+/-- the addressee's check of a private deal (`dkg.ProcessDeals` = kyber's `ProcessDeal` + `processDealCommits`),
+at the level of exponents: `broadcast` are the discrete logarithms of the commitments the dealer posted on the
+board, `inDeal` those of the commitments inside the decrypted deal, `share` the secret share in the deal for
+node `x`. Accepted iff the two commitment vectors are equal coefficient by coefficient (same length included)
+and the share lies on them. -/
+def acceptDeal (broadcast inDeal : List F) (x share : F) : Bool :=
+  decide (broadcast = inDeal) && decide (evalPoly inDeal x = share)
+
 end Dc4bcVerif.Model.Shamir
 
 namespace Dc4bcVerif.Model
